@@ -3,6 +3,10 @@ Model of the inline caches (laythe_vm/src/cache.rs) as used by `op_get_prop_by_n
 `op_set_prop_by_name`, `op_invoke` and `op_super_invoke` (vm/ops.rs), one cache slot per site.
 Classes are identified by address; the slow path is a function of (class, name) — class tables do
 not change after the class expression finished (C03: `declareClass`), which is what `World` records.
+
+A site's result (`Res`) says what it leaves on the operand stack as well: a property op is entered
+with the receiver (and, for a write, the value) on the stack, and each of its arms shuffles the stack
+with a few statements (`SOp`); the model runs those statements (`writeRes`, `readRes`).
 -/
 namespace LaytheVerif.Cache
 
@@ -19,16 +23,144 @@ def Recv.cls : Recv → Nat
   | .inst c _ => c
   | .prim c => c
 
-/-- What a site does, as far as the rest of the program can tell. -/
+/-- What an operand-stack slot (or a local of the op) holds, as far as one execution of a site can
+tell: the receiver the site was entered with, or some other value. -/
+inductive Item where
+  | recv
+  | val (v : Nat)
+  deriving DecidableEq, Repr
+
+/-- What a site does, as far as the rest of the program can tell — including what it leaves on the
+operand stack (the value of the expression the site belongs to). -/
 inductive Res
-  | value (v : Nat)                    -- property read result
-  | bound (m : Nat)                    -- bound method of the receiver
-  | wrote (slot : Nat)                 -- property write into this slot
-  | callMethod (m : Nat)               -- call this method with the receiver
+  | value (left : Item)                -- property read: `left` replaces the receiver on the stack
+  | bound (m : Nat)                    -- bound method of the receiver replaces the receiver
+  | wrote (slot : Nat) (stored left : Item)
+                                       -- property write: `stored` went into the slot; `left` replaces receiver and
+                                       -- value on the stack, i.e. it is the value of the assignment expression
+  | callMethod (m : Nat)               -- call this method with the receiver (the call leaves its result)
   | callField (v : Nat)                -- call the value stored in a field (field shadows method)
   | propertyError
   | notInstanceError
+  | stuck                              -- the op's stack statements do not fit the operand stack (never, for the
+                                       -- statements the code has: `C13_shuffles_run`)
   deriving DecidableEq, Repr
+
+/-! ### the operand-stack statements of `op_set_prop_by_name` / `op_get_prop_by_name`
+
+Each arm of the two property ops is a short straight-line sequence of stack statements; the model runs
+exactly those sequences (`writeShuffle`, `readShuffle`), and `Props/C13.lean` shows that the statements
+the Rust text has on every path (regenerated into `Gen.CacheSites.paths`) read as these sequences. -/
+
+/-- the two locals the property ops keep stack values in -/
+inductive Var where
+  | inst                               -- `instance`
+  | value                              -- `value`
+  deriving DecidableEq, Repr
+
+inductive SOp where
+  | letPeek (x : Var) (n : Nat)        -- `let x = self.fiber.peek(n)`
+  | asInstance (x : Var)               -- taken branch of `if_let_obj!(ObjectKind::Instance(instance) = (x) {..})`
+  | popValue                           -- `let value = self.fiber.pop()`
+  | drop                               -- `self.fiber.drop()`
+  | pushValue                          -- `self.fiber.push(value)`
+  | storeValue                         -- `instance[property_slot] = value`
+  | storePeek (n : Nat)                -- `instance[property_slot] = self.fiber.peek(n)`
+  | peekSetField (n : Nat)             -- `self.fiber.peek_set(n, instance[property_slot])`
+  deriving DecidableEq, Repr
+
+/-- operand stack (top first), the two locals, and what was stored into the instance's slot -/
+structure Mach where
+  stack : List Item
+  inst : Option Item := none
+  value : Option Item := none
+  stored : Option Item := none
+  deriving DecidableEq, Repr
+
+/-- One statement; `fv` is the content of the instance's slot before the op.  `none`: the statement does
+not fit (empty stack, unbound local, `instance` is not the receiver). -/
+def SOp.exec (fv : Nat) (m : Mach) : SOp → Option Mach
+  | .letPeek x n => match m.stack[n]? with
+    | some it => (match x with | .inst => some { m with inst := some it } | .value => some { m with value := some it })
+    | none => none
+  | .asInstance x => match (match x with | .inst => m.inst | .value => m.value) with
+    | some .recv => some { m with inst := some .recv }
+    | _ => none
+  | .popValue => match m.stack with
+    | it :: st => some { m with stack := st, value := some it }
+    | [] => none
+  | .drop => match m.stack with
+    | _ :: st => some { m with stack := st }
+    | [] => none
+  | .pushValue => match m.value with
+    | some v => some { m with stack := v :: m.stack }
+    | none => none
+  | .storeValue => match m.inst, m.value with
+    | some .recv, some v => some { m with stored := some v }
+    | _, _ => none
+  | .storePeek n => match m.inst, m.stack[n]? with
+    | some .recv, some v => some { m with stored := some v }
+    | _, _ => none
+  | .peekSetField n => match m.inst with
+    | some .recv => if n < m.stack.length then some { m with stack := m.stack.set n (.val fv) } else none
+    | _ => none
+
+def runOps (fv : Nat) : List SOp → Mach → Option Mach
+  | [], m => some m
+  | op :: ops, m => match op.exec fv m with
+    | some m' => runOps fv ops m'
+    | none => none
+
+/-- both arms of `op_set_prop_by_name` that write: `let instance = self.fiber.peek(1)`, instance test,
+`let value = self.fiber.pop(); self.fiber.drop(); self.fiber.push(value); instance[property_slot] = value` -/
+def writeShuffle : List SOp := [.letPeek .inst 1, .asInstance .inst, .popValue, .drop, .pushValue, .storeValue]
+
+/-- both arms of `op_get_prop_by_name` that read a field: `let value = self.fiber.peek(0)`, instance test,
+`self.fiber.peek_set(0, instance[property_slot])` -/
+def readShuffle : List SOp := [.letPeek .value 0, .asInstance .value, .peekSetField 0]
+
+/-- A write whose slot is known, entered with `value :: receiver` on the stack. -/
+def writeRes (ops : List SOp) (slot v : Nat) : Res :=
+  match runOps 0 ops { stack := [.val v, .recv] } with
+  | some m => (match m.stack, m.stored with
+    | [left], some s => .wrote slot s left
+    | _, _ => .stuck)
+  | none => .stuck
+
+/-- A read whose slot is known (content `fv`), entered with the receiver on the stack. -/
+def readRes (ops : List SOp) (fv : Nat) : Res :=
+  match runOps fv ops { stack := [.recv] } with
+  | some m => (match m.stack with
+    | [left] => .value left
+    | _ => .stuck)
+  | none => .stuck
+
+/-- Reading one statement of the Rust text (as normalised by tools/translate.py, `gen_cache_sites`). -/
+def parseSOp (s : String) : Option SOp :=
+  if s = "let instance = self.fiber.peek(1)" then some (.letPeek .inst 1)
+  else if s = "let instance = self.fiber.peek(0)" then some (.letPeek .inst 0)
+  else if s = "let value = self.fiber.peek(0)" then some (.letPeek .value 0)
+  else if s = "let value = self.fiber.peek(1)" then some (.letPeek .value 1)
+  else if s = "if_let_obj ObjectKind::Instance(mut instance) = (instance)" then some (.asInstance .inst)
+  else if s = "if_let_obj ObjectKind::Instance(instance) = (instance)" then some (.asInstance .inst)
+  else if s = "if_let_obj ObjectKind::Instance(mut instance) = (value)" then some (.asInstance .value)
+  else if s = "if_let_obj ObjectKind::Instance(instance) = (value)" then some (.asInstance .value)
+  else if s = "let value = self.fiber.pop()" then some .popValue
+  else if s = "self.fiber.drop()" then some .drop
+  else if s = "self.fiber.push(value)" then some .pushValue
+  else if s = "instance[property_slot] = value" then some .storeValue
+  else if s = "instance[property_slot as usize] = value" then some .storeValue
+  else if s = "instance[property_slot] = self.fiber.peek(0)" then some (.storePeek 0)
+  else if s = "instance[property_slot as usize] = self.fiber.peek(0)" then some (.storePeek 0)
+  else if s = "instance[property_slot] = self.fiber.peek(1)" then some (.storePeek 1)
+  else if s = "self.fiber.peek_set(0, instance[property_slot])" then some (.peekSetField 0)
+  else if s = "self.fiber.peek_set(0, instance[property_slot as usize])" then some (.peekSetField 0)
+  else none
+
+/-- The stack statements (and instance test) of one path of `Gen.CacheSites.paths`, read as `SOp`s;
+`none` when some statement is not one the model knows. -/
+def pathOps (items : List (String × String)) : Option (List SOp) :=
+  (items.filter (fun it => it.1 = "stack" || it.1 = "bind")).mapM (fun it => parseSOp it.2)
 
 abbrev PCache := Option (Nat × Nat)    -- PropertyCache { class, property_index }
 abbrev ICache := Option (Nat × Nat)    -- InvokeCache { class, method }
@@ -38,40 +170,49 @@ abbrev ICache := Option (Nat × Nat)    -- InvokeCache { class, method }
 def getSlow (w : World) (name : String) (r : Recv) : Res :=
   match r with
   | .inst c fs => match w.fieldIndex c name with
-    | some i => .value (fs.getD i 0)
+    | some i => .value (.val (fs.getD i 0))
     | none => match w.method c name with | some m => .bound m | none => .propertyError
   | .prim c => match w.method c name with | some m => .bound m | none => .propertyError
 
-/-- `op_get_prop_by_name` -/
-def getCached (w : World) (name : String) (cache : PCache) (r : Recv) : Res × PCache :=
+/-- `op_get_prop_by_name`, with the stack statements of its hit arm and of its fill arm as parameters -/
+def getCachedWith (hitOps missOps : List SOp) (w : World) (name : String) (cache : PCache) (r : Recv) : Res × PCache :=
   match r with
   | .inst c fs =>
     match (match cache with | some (cc, i) => if cc = c then some i else none | none => none) with
-    | some i => (.value (fs.getD i 0), cache)
+    | some i => (readRes hitOps (fs.getD i 0), cache)
     | none =>
       match w.fieldIndex c name with
-      | some i' => (.value (fs.getD i' 0), some (c, i'))
+      | some i' => (readRes missOps (fs.getD i' 0), some (c, i'))
       | none => (match w.method c name with | some m => .bound m | none => .propertyError, none)
   | .prim c => (match w.method c name with | some m => .bound m | none => .propertyError, none)
 
-/-! ### property write -/
+/-- `op_get_prop_by_name` as it is: both arms run `readShuffle` -/
+def getCached : World → String → PCache → Recv → Res × PCache := getCachedWith readShuffle readShuffle
 
-def setSlow (w : World) (name : String) (r : Recv) : Res :=
-  match r with
-  | .inst c _ => match w.fieldIndex c name with | some i => .wrote i | none => .propertyError
+/-! ### property write
+
+A write site is entered with a receiver and the value to assign (`rv = (receiver, value)`).  The Spec
+(`setSlow`): the value goes into the field's slot and is what the assignment expression evaluates to. -/
+
+def setSlow (w : World) (name : String) (rv : Recv × Nat) : Res :=
+  match rv.1 with
+  | .inst c _ => match w.fieldIndex c name with | some i => .wrote i (.val rv.2) (.val rv.2) | none => .propertyError
   | .prim _ => .notInstanceError
 
-/-- `op_set_prop_by_name` -/
-def setCached (w : World) (name : String) (cache : PCache) (r : Recv) : Res × PCache :=
-  match r with
+/-- `op_set_prop_by_name`, with the stack statements of its hit arm and of its fill arm as parameters -/
+def setCachedWith (hitOps missOps : List SOp) (w : World) (name : String) (cache : PCache) (rv : Recv × Nat) : Res × PCache :=
+  match rv.1 with
   | .inst c _ =>
     match (match cache with | some (cc, i) => if cc = c then some i else none | none => none) with
-    | some i => (.wrote i, cache)
+    | some i => (writeRes hitOps i rv.2, cache)
     | none =>
       match w.fieldIndex c name with
-      | some i' => (.wrote i', some (c, i'))
+      | some i' => (writeRes missOps i' rv.2, some (c, i'))
       | none => (.propertyError, cache)
   | .prim _ => (.notInstanceError, cache)
+
+/-- `op_set_prop_by_name` as it is: both arms run `writeShuffle` -/
+def setCached : World → String → PCache → Recv × Nat → Res × PCache := setCachedWith writeShuffle writeShuffle
 
 /-! ### invoke -/
 
